@@ -3,7 +3,10 @@
 Primitive level: every request of the C02 primitive stream is run a second time with all cluster values (buffer
 contents, supplied clusters, set_masks bounds) relabelled by a strictly increasing map — on the crate and on the Lean
 model (correspondence) — and the crate's relabelled trace is compared with its original trace after un-relabelling.
-Shape level: paired shape() calls through the public API (relabelled input + feature ranges; the three levels pairwise)."""
+Shape level: paired shape() calls through the public API (relabelled input + feature ranges; the three levels pairwise)
+on the corpus, on structured Hangul over 11 support variants and on generated AAT fonts with morx + feat.
+Shaper level: the Hangul preprocess hook at the three levels and the morx substitute hook under relabelling with gaps
+(both also as correspondence streams against the Lean models the C15 theorems are about)."""
 import re
 import vlib, bufgen, corpus, C02
 
@@ -666,7 +669,13 @@ def run(ctx):
     ctx.assumptions += [
         "theorems are about the Lean model of the buffer primitives (Buf.lean) and the cluster pipeline pieces (Cluster.lean); the tie "
         "to the crate is the cluster-prims-relabelled correspondence stream (and C02's cluster-prims stream)",
-        "shapers, GSUB/GPOS/morx interpreters are not modelled here: for them the property rests on the paired shape() search",
+        "of the shapers' own code two pieces that look at clusters / the level are covered by theorems on their models: Hangul "
+        "preprocessing (C15_hangul_levels_and_labels; tie: hangul-pre-levels) and the morx non-contextual feature-range lookup "
+        "(C15_enabledAt_relabel, C15_relabel_noncontextual; tie: morx-run-relabelled); the other shapers and the GSUB/GPOS "
+        "interpreters rest on the paired shape() search (corpus fonts; structured Hangul; generated morx+feat fonts)",
+        "outside the hypothesis, counted and shown in the evidence: ranged feature bounds inside a grapheme (OpenType) or inside a "
+        "cluster that an earlier morx subtable merges at levels 0/1 (morx looks ranges up by the cluster a glyph carries when "
+        "the subtable runs); two overlapping contradicting settings of one AAT feature (resolved by activation order)",
         "relabelling commutes exactly except for records zero-padded by Vec::resize, which are not relabelled (dead slots)",
     ]
     ctx.regen()
